@@ -278,6 +278,8 @@ BOUNDED = [Bounded("inverse_dispersion.compiled", _bounded_inverse,
                    "unconditional residual bound, positivity, monotonicity and limits of the compiled solver on a grid")]
 
 CONTRACTS = [dispersion, phase, ratio, group, inverse]
+from contracts.C07_spectrum import SPECTRUM_CONTRACTS
+CONTRACTS = CONTRACTS + SPECTRUM_CONTRACTS
 TRUSTED = ["A-table (true facts about the real functions, ground instances only): sqrt(x)>=0, sqrt(x)^2=x for x>=0; -1<tanh<1, sign(tanh x)=sign x; "
            "sinh(y)>=y for y>=0; sinh(y)>=500*y for y>=10 (sinh(10)=11013.2, cosh>=500 beyond)",
            "numba compiles the source faithfully (witness samples call the compiled functions; the bounded stand-in calls the compiled solver)",
